@@ -156,6 +156,13 @@ def make_strategy(script: dict):
         # ------------------------------------------------------------------ jesse API
         def before(self):
             self._cancel_answer = None
+            if self.s.get('read_metrics') and self.index % self.s['read_metrics'] == 0:
+                # strategies may look at their running performance (Strategy.metrics)
+                try:
+                    m_ = self.metrics
+                    self._metrics_reads = getattr(self, '_metrics_reads', 0) + (1 if m_ else 0)
+                except Exception:
+                    pass
             self._observe('before')
             self._maybe_raise('before')
 
@@ -558,6 +565,10 @@ def make_strategy(script: dict):
             return out
 
         def dna(self):
+            # a strategy may choose its DNA per route (symbol / timeframe); the lookup tolerates attributes that are not set
+            by = self.s.get('dna_by_route')
+            if by:
+                return by.get(f'{self.symbol}|{self.timeframe}', by.get('default', ''))
             return self.s.get('dna') or ''
 
     def self_current(exchange, symbol, tf):
